@@ -84,6 +84,11 @@ def seed_identity(seed: int) -> None:
     rng = random.Random(seed)
     random.seed(seed)
     uuid.uuid4 = lambda: uuid.UUID(int=rng.getrandbits(128), version=4)
+    # temporary names too (they end up in directory listings, whose simulated order is keyed by path)
+    names = tempfile._RandomNameSequence()  # pylint: disable=protected-access
+    names._rng = random.Random(seed ^ 0x7E)  # pylint: disable=protected-access
+    names._rng_pid = os.getpid()  # pylint: disable=protected-access
+    tempfile._name_sequence = names  # pylint: disable=protected-access
     try:
         from forml.io.asset._directory.level import minor  # pylint: disable=import-outside-toplevel
 
